@@ -45,6 +45,7 @@ C12CtxText == "(def x 7) (def xs (list 1 2)) (def v [3 4]) (def em ()) (def w '(
            "(defmacro mcall (fn [& xs] `(~@xs))) " \o
            "(defmacro mnest (fn [a] `(do (list 0 (nth [1] ~a))))) " \o
            "(def m1m (with-meta m1 {:doc 1})) " \o
+           "(defmacro mexp (fn [a] (trace! :expanding) a)) (def fexp (fn [a] (mexp a))) " \o
            "(def f1 (fn [a] (list a a)))"
 C12CtxForms == ReadAll(C12CtxText)
 
@@ -65,7 +66,9 @@ C12GM == Grammar(
     \* an error raised by a form nested inside the expansion (its position is the macro call's) / a threading chain failing inside
     "(mnest _1)", "(-> _1 (nth 7) (or 0))",
     \* a macro that went through with-meta is still a macro
-    "(m1m _1)", "(macroexpand (m1m _1))">>,
+    "(m1m _1)", "(macroexpand (m1m _1))",
+    \* a macro with an effect at expansion time, its call site evaluated twice
+    "(list (fexp _1) (fexp 2))">>,
   <<"(m2 _1 _2)", "(or _1 _2)", "(and _1 _2)", "(cond _1 _2)", "(-> _1 (list _2))", "(->> _1 (list _2))",
     "(macroexpand (or _1 _2))", "(eval (macroexpand (or _1 _2)))", "(m5 _1 _2)", "(macroexpand (m5 _1 _2))",
     "(eval (macroexpand (and _1 _2)))", "(macroexpand (cond _1 _2))">>,
